@@ -184,7 +184,7 @@ def window_priority_step(op: int, sid: int, in_buffers: bool, in_tree: bool, dep
 # ------------------------------------------------------------------ sessions
 
 SIZES = [0, 100, 16385, 70000, 1, 16384] if QUICK else [0, 1, 100, 16384, 16385, 70000]
-WINDOWS = [0, 1, 100, 65535]
+WINDOWS = [0, 1, 100, 65535, 1000000]  # the last one: stream windows never limit, the client acknowledges on the connection only
 ACTIONS = ["WU stream1 +1", "WU stream1 +20000", "WU conn +1", "WU conn +70000", "SETTINGS initial_window=40000", "PRIORITY 3 depends on 1 exclusive",
            "RST stream1", "WU stream3 +70000", "SETTINGS initial_window=0", "PRIORITY 1 weight 256"]
 
@@ -227,7 +227,7 @@ def _apply(client: H2Client, a: int, state: dict) -> None:
 
 @harness(
     "C09",
-    dom={"n": (1, 2), "z1": (0, 3), "z3": (0, 5), "chunks": (1, 3), "wi": (0, 3), "k": (0, 2), "a0": (0, 9), "a1": (0, 9), "a2": (0, 9), "a3": (0, 9), "a4": (0, 9)},
+    dom={"n": (1, 2), "z1": (0, 3), "z3": (0, 5), "chunks": (1, 3), "wi": (0, 4), "k": (0, 2), "a0": (0, 9), "a1": (0, 9), "a2": (0, 9), "a3": (0, 9), "a4": (0, 9)},
     thorough_dom={"n": (1, 3), "k": (0, 4), "z1": (0, 5)},
     split={"z1": "each", "wi": "each"},
     thorough_split={"z1": "each", "wi": "each", "a0": "each"},
@@ -235,7 +235,7 @@ def _apply(client: H2Client, a: int, state: dict) -> None:
                {"n": 1, "z1": 2, "z3": 0, "chunks": 3, "wi": 0, "k": 2, "a0": 4, "a1": 3, "a2": 0, "a3": 0, "a4": 0}],
     budget={"quick": 280, "thorough": 1800},
     per_path=120,
-    bounds="1..2 (thorough 3) concurrent streams, response sizes from {0,100,16385,70000} (thorough also 1, 16384) written in 1 or 3 chunks (thorough 1..3), client initial window from {0,1,100,65535}, then a sequence of 0..2 (thorough 4; quick two-stream sessions 0..1) client control actions from 10 kinds (WINDOW_UPDATE stream/connection small/large, SETTINGS initial window up/down, PRIORITY exclusive/weight, RST_STREAM), finally all windows opened",
+    bounds="1..2 (thorough 3) concurrent streams, response sizes from {0,100,16385,70000} (thorough also 1, 16384) written in 1 or 3 chunks (thorough 1..3), client initial window from {0,1,100,65535} or a client with huge stream windows that acknowledges on the connection window only, then a sequence of 0..2 (thorough 4; quick two-stream sessions 0..1) client control actions from 10 kinds (WINDOW_UPDATE stream/connection small/large, SETTINGS initial window up/down, PRIORITY exclusive/weight, RST_STREAM), finally all windows opened",
     encodes=["hypercorn/protocol/h2.py::H2Protocol.send_task", "hypercorn/protocol/h2.py::H2Protocol._send_data", "hypercorn/protocol/h2.py::H2Protocol._window_updated",
              "hypercorn/protocol/h2.py::H2Protocol._priority_updated", "hypercorn/protocol/h2.py::H2Protocol.stream_send", "hypercorn/protocol/h2.py::StreamBuffer.push"],
     stubs=["tier B runtime", "independent h2 client that enforces flow control on what it receives"],
@@ -261,7 +261,8 @@ def h2_flow_session(n: int, z1: int, z3: int, chunks: int, wi: int, k: int, a0: 
             sizes[3] = SIZES[conc(z3, 0, 5)]
     if n >= 3:
         sizes[5] = 100
-    window = WINDOWS[conc(wi, 0, 3)]
+    window = WINDOWS[conc(wi, 0, 4)]
+    conn_only = window == 1000000
     acts_all = (a0, a1, a2, a3, a4)
     acts = [conc(acts_all[i], 0, 9) for i in range(k)]
 
@@ -284,24 +285,36 @@ def h2_flow_session(n: int, z1: int, z3: int, chunks: int, wi: int, k: int, a0: 
     app = GatedApp(conn.ctx, steps_for, gated=False)
     conn.proto.app = app
     conn.proto.protocol.app = app
-    client = H2Client(initial_window=window)
+    client = H2Client(initial_window=window, auto_ack=not conn_only)
     for sid in sizes:
         client.request(sid, b"GET", b"/s%d" % sid, end_stream=True)
     conn.feed(client.take())
     client.feed(conn.take())
     state = {"reset1": False, "n": n}
-    for a in acts:
-        _apply(client, a, state)
-        conn.feed(client.take())
-        client.feed(conn.take())
-        conn.feed(client.take())  # acks / window updates produced while reading
-    # finally: open everything so that every non-reset stream can finish
-    for _ in range(4):
-        client.settings({h2.settings.SettingCodes.INITIAL_WINDOW_SIZE: 1000000})
-        client.window_update(0, 1000000)
-        conn.feed(client.take())
-        client.feed(conn.take())
-        conn.feed(client.take())
+    if conn_only:
+        # a client that only ever re-opens the connection window (RFC 9113 allows it: its stream windows are huge)
+        acts = [a for a in acts if a in (2, 3, 5, 6, 9)]
+        for a in acts:
+            _apply(client, a, state)
+            conn.feed(client.take())
+            client.feed(conn.take())
+        for _ in range(6):
+            client.ack_connection_only()
+            conn.feed(client.take())
+            client.feed(conn.take())
+    else:
+        for a in acts:
+            _apply(client, a, state)
+            conn.feed(client.take())
+            client.feed(conn.take())
+            conn.feed(client.take())  # acks / window updates produced while reading
+        # finally: open everything so that every non-reset stream can finish
+        for _ in range(4):
+            client.settings({h2.settings.SettingCodes.INITIAL_WINDOW_SIZE: 1000000})
+            client.window_update(0, 1000000)
+            conn.feed(client.take())
+            client.feed(conn.take())
+            conn.feed(client.take())
     steps_before = conn.sched.steps
     conn.sched.run()
     spun = conn.sched.steps - steps_before  # at quiescence nothing is runnable: the send task sleeps on has_data
